@@ -456,6 +456,7 @@ func TestAVCSlice(t *testing.T) {
 			harness.Rec.Sample(map[string]interface{}{"kind": "avcslice", "case": c})
 		}
 		f := harness.Guarded(func() *harness.Fail { return checkAVCSlice(c) })
+		avcReplayConsistent(rt, raw, f, harness.Replayer(checkAVCSlice))
 		harness.Report(rt, "avcslice", c, f)
 	})
 }
